@@ -17,6 +17,7 @@ import (
 	"net"
 	"os"
 	"runtime"
+	"sort"
 	"strconv"
 	"strings"
 	"sync"
@@ -439,6 +440,28 @@ func gRunCase(t *testing.T, c *gCase) []string {
 			mu.Unlock()
 			logf("ended %s", cls)
 		}()
+		lastState, lastReg := "disconnected", "-"
+		sample := func() {
+			st := h.state.Get().String()
+			var es []string
+			h.registeredTopics.Range(func(k, v interface{}) bool {
+				es = append(es, fmt.Sprintf("%05d:%s", k.(uint16), ghex([]byte(v.(string)))))
+				return true
+			})
+			sort.Strings(es)
+			rg := "-"
+			if len(es) > 0 {
+				rg = strings.Join(es, ",")
+			}
+			if st != lastState {
+				lastState = st
+				logf("state %s", st)
+			}
+			if rg != lastReg {
+				lastReg = rg
+				logf("reg %s", rg)
+			}
+		}
 		synctest.Wait()
 		isEnded := func() bool {
 			select {
@@ -487,6 +510,7 @@ func gRunCase(t *testing.T, c *gCase) []string {
 			case "end":
 			}
 			synctest.Wait()
+			sample()
 		}
 		// teardown (not part of the case)
 		mu.Lock()
